@@ -5,6 +5,7 @@ package main
 
 import (
 	"fmt"
+	"go/token"
 	"go/types"
 	"golang.org/x/tools/go/ssa"
 	"strings"
@@ -122,6 +123,9 @@ func runC17(cx *Ctx, r *Report) {
 			}
 			// trim precedes the write, deletes through a forward iterator
 			okTrim := len(del) == 1 && orderedBefore(del[0].ev, set[0].ev) && strings.Contains(del[0].ev.Args[0].LooseString(), "storetypes.KVStorePrefixIterator(") && !strings.Contains(del[0].ev.Args[0].LooseString(), "Reverse")
+			if !okTrim && len(del) == 1 && orderedBefore(del[0].ev, set[0].ev) {
+				_, okTrim = cx.keepTrimIdiom(del[0])
+			}
 			// guards: non-empty outputs and nil error
 			_, g1 := set[0].fact(false, "(len(responseOutput) == 0)")
 			_, g2 := set[0].fact(false, "(err != nil)")
@@ -153,7 +157,16 @@ func runC17(cx *Ctx, r *Report) {
 								trims = true
 							}
 						}
-						if !trims && !strings.Contains(cx.P.File(f.Pos()), "genesis") {
+						readsValues := false
+						for _, b := range f.Blocks {
+							for _, ins := range b.Instrs {
+								if ci, isCall := ins.(ssa.CallInstruction); isCall && ci.Common().IsInvoke() && ci.Common().Method.Name() == "Value" {
+									readsValues = true
+								}
+							}
+						}
+						// (a scan that never looks at the values - it counts or collects keys - lists nothing)
+						if !trims && readsValues && !strings.Contains(cx.P.File(f.Pos()), "genesis") {
 							ok = false
 							r.violate("newest-first", anchorOf(cx, f), cx.P.Pos(p.Site.Pos()), "feed values are listed with a forward (oldest-first) iterator in "+shortFn(f))
 						}
@@ -288,6 +301,19 @@ func (cx *Ctx) oracleTrimRule(r *Report, per map[string][]hev, rule string) {
 			a := trimArg(d)
 			var ok bool
 			var want string
+			if keep, isKeep := cx.keepTrimIdiom(d); isKeep {
+				// second recognised form: delete keys[:len(keys)-keep] of the feed's keys in
+				// ascending order - "keep the newest `keep`"
+				if name == "EditFeed" {
+					want = "all but the newest msg.LatestHistory"
+					ok = keep == "msg.LatestHistory"
+				} else {
+					want = "all but the newest (feed.LatestHistory − 1) before adding one value"
+					ok = strings.HasSuffix(keep, ".LatestHistory - 1)") && strings.HasPrefix(keep, "(") && !strings.Contains(keep, "msg.")
+				}
+				r.check(ok, rule, name, d.ev.Pos(cx), "the trim keeps "+want+" (oldest keys deleted first)", name+": the trim keeps the newest "+trunc(keep, 160)+" values; expected "+want+": the feed would keep fewer (or more) than the newest latest-history values")
+				continue
+			}
 			if name == "EditFeed" {
 				want = "(stored count − msg.LatestHistory), only when msg.LatestHistory < stored count"
 				_, g := d.factOrdered(true, "msg.LatestHistory", " < ")
@@ -408,4 +434,96 @@ func (cx *Ctx) c17AllResponsesCounted(r *Report, evs []hev) {
 	if n == 0 {
 		r.toolErr("no loop over the response outputs that fills the aggregate's input was found on the callback chain (1 confirmed)")
 	}
+}
+
+// keepTrimIdiom: the delete at d removes, oldest first, all but the newest K values of a
+// feed:  keys := <all keys under the feed's value prefix, ascending>;
+//        for _, key := range keys[:len(keys)-K] { store.Delete(key) }
+// with K the last parameter of the deleting function (possibly clamped at zero). Returns
+// K's term on this call chain.
+func (cx *Ctx) keepTrimIdiom(d hev) (string, bool) {
+	ci, ok := d.ev.Site.(ssa.CallInstruction)
+	if !ok || len(ci.Common().Args) == 0 {
+		return "", false
+	}
+	ld, ok := ci.Common().Args[0].(*ssa.UnOp)
+	if !ok {
+		return "", false
+	}
+	ia, ok := ld.X.(*ssa.IndexAddr)
+	if !ok {
+		return "", false
+	}
+	sl, ok := ia.X.(*ssa.Slice)
+	if !ok || sl.Low != nil || sl.High == nil {
+		return "", false
+	}
+	sub, ok := sl.High.(*ssa.BinOp)
+	if !ok || sub.Op != token.SUB {
+		return "", false
+	}
+	// len(S) − K over the very slice S that is cut
+	lc, ok := sub.X.(*ssa.Call)
+	if !ok || len(lc.Common().Args) != 1 || lc.Common().Args[0] != sl.X {
+		return "", false
+	}
+	if b, isB := lc.Common().Value.(*ssa.Builtin); !isB || b.Name() != "len" {
+		return "", false
+	}
+	// S: the snapshot of all keys of the value prefix, taken with a forward iterator
+	sc, ok := sl.X.(*ssa.Call)
+	if !ok {
+		return "", false
+	}
+	g := sc.Common().StaticCallee()
+	if g == nil || !cx.snapshotCollector(g) {
+		return "", false
+	}
+	fwd := false
+	for _, p := range cx.primsOf(g) {
+		if p.Kind == "store.riter" {
+			return "", false
+		}
+		if p.Kind == "store.iter" && len(p.Prefix) == 1 && p.Prefix[0] == orcValue {
+			fwd = true
+		}
+	}
+	if !fwd {
+		return "", false
+	}
+	// K: the function's last parameter, possibly through φ(param, 0) and conversions
+	fn := ci.Parent()
+	if len(fn.Params) == 0 {
+		return "", false
+	}
+	last := fn.Params[len(fn.Params)-1]
+	var isK func(v ssa.Value, depth int) bool
+	isK = func(v ssa.Value, depth int) bool {
+		if depth > 4 {
+			return false
+		}
+		switch x := v.(type) {
+		case *ssa.Parameter:
+			return x == last
+		case *ssa.Convert:
+			return isK(x.X, depth+1)
+		case *ssa.Phi:
+			sawP := false
+			for _, e := range x.Edges {
+				if c, isC := e.(*ssa.Const); isC && c.Value != nil && c.Int64() == 0 {
+					continue
+				}
+				if !isK(e, depth+1) {
+					return false
+				}
+				sawP = true
+			}
+			return sawP
+		}
+		return false
+	}
+	if !isK(sub.Y, 0) {
+		return "", false
+	}
+	return d.w.ts.Of(last, d.ev.Fr).LooseString(), true
 }
